@@ -23,6 +23,7 @@ HARNESS = {
     "C16": "c14_c16",
     "C15": "c15",
     "C20": "c20",
+    "C17": "c17",
     "C19": "c13_c19",
 }
 
